@@ -91,6 +91,54 @@ std('C01', 'c01_strict_ok', LIN_Q, LIN_T, group='strict_add/sub/neg/abs/add_sign
 std('C01', 'c01_strict_panic', LIN_Q, LIN_T, group='strict_* panic on every overflowing input', kind='panic')
 
 
+# ---------------------------------------------------------------- C05
+U2 = lambda i: i.n + 2
+for sg in ('u', 'i'):
+    for dr in ('shl', 'shr'):
+        for tier, insts in (('quick', LIN_Q), ('thorough', LIN_T)):
+            for i in insts:
+                T = i.U if sg == 'u' else i.I
+                add(H('C05', f"c05_{sg}_{dr}_{i.tag}", 'c05_shift', f"{i.n + 2}, {T}, {i.digit}, {i.n}, {dr}", tier=tier, inst=i.label,
+                      funcs=f"{'BUint' if sg == 'u' else 'BInt'} overflowing/checked/wrapping/unbounded/strict/unchecked_{dr}",
+                      bound=f'all values, shift amount over all of u32, symbolic bit index; unwind {i.n + 2}', cap=600))
+std('C05', 'c05_strict_panic', LIN_Q, LIN_T, unwind=U2, group='strict_shl/strict_shr panic for amount >= BITS', kind='panic',
+    bound='all values, all amounts >= BITS')
+for dr in ('left', 'right'):
+    for tier, insts in (('quick', LIN_Q), ('thorough', LIN_T)):
+        for i in insts:
+            add(H('C05', f"c05_rot{dr[0]}_{i.tag}", 'c05_rot', f"{i.n + 2}, {i.U}, {i.I}, {i.digit}, {i.n}, {dr}", tier=tier, inst=i.label,
+                  funcs=f"rotate_{dr} (BUint, BInt) + inverse law", cap=600,
+                  bound=f'all values, rotation amount over all of u32, symbolic bit index; unwind {i.n + 2}'))
+
+
+def both(prop, macro, insts_q, insts_t, unwind=lambda i: i.n + 2, signs=('u', 'i'), group='', bound='all operand values', **kw):
+    """register a BN-generic macro (args: unwind, T, D, N) for unsigned and/or signed types"""
+    for sg in signs:
+        for tier, insts in (('quick', insts_q), ('thorough', insts_t)):
+            for i in insts:
+                T = i.U if sg == 'u' else i.I
+                add(H(prop, f"{macro}_{sg}_{i.tag}", macro, f"{unwind(i)}, {T}, {i.digit}, {i.n}", tier=tier, inst=i.label,
+                      funcs=('BUint ' if sg == 'u' else 'BInt ') + group, bound=f"{bound}; unwind {unwind(i)}", **kw))
+
+
+# ---------------------------------------------------------------- C06
+both('C06', 'c06_logic', LIN_Q, LIN_T, group='bitand/bitor/bitxor/not (+ operators), bit, is_zero, is_one', bound='all value pairs, symbolic bit index')
+both('C06', 'c06_counts', LIN_Q, LIN_T, group='count_ones/zeros, leading/trailing_zeros/ones, bits', bound='all values, symbolic bit index')
+both('C06', 'c06_perm', LIN_Q, LIN_T, group='swap_bytes, reverse_bits, is_power_of_two', bound='all values, symbolic bit / byte index')
+both('C06', 'c06_u_bits', LIN_Q, LIN_T, signs=('u',), group='set_bit, power_of_two, checked/wrapping_next_power_of_two',
+     bound='all values, all bit indices < BITS')
+
+# ---------------------------------------------------------------- C07
+both('C07', 'c07_cmp', LIN_Q, LIN_T, unwind=lambda i: i.bytes + 2, group='cmp/eq/ne/lt/le/gt/ge/min/max/clamp (inherent, Ord/PartialOrd/PartialEq, operators)',
+     bound='all triples of values')
+both('C07', 'c07_clamp_panic', LIN_Q, LIN_T, group='clamp panics when min > max', kind='panic', bound='all triples with min > max')
+both('C07', 'c07_sign', LIN_Q, LIN_T, signs=('i',), group='signum, is_positive, is_negative')
+HASH_Q = [I(8, 1), I(8, 3), I(16, 2), I(32, 2), I(64, 1), I(64, 2)]
+HASH_T = [I(8, 5), I(16, 3), I(32, 3), I(64, 3), I(64, 5)]
+both('C07', 'c07_hash', HASH_Q, HASH_T, unwind=lambda i: max(i.bytes, 8) + 2, group='derived Hash vs equality',
+     bound='all pairs of values; recording hasher')
+
+
 def by_prop(p):
     return [h for h in REG if h.prop == p]
 
@@ -100,6 +148,9 @@ PROPS = sorted({h.prop for h in REG})
 # what lies outside each property's claim / assumptions beyond the common trusted base (evidence + MANIFEST)
 OUTSIDE = {
     'C01': ['widths above 320 bits (N beyond the listed instantiations)'],
+    'C05': ['widths above 320 bits', 'value of wrapping/overflowing shifts for amounts >= BITS on non-power-of-two widths (only flag/None asserted, as the property states)'],
+    'C06': ['widths above 320 bits', 'bit / set_bit / power_of_two with index >= BITS'],
+    'C07': ['widths above 320 bits'],
 }
 ASSUME = {
     'C01': ['from_digits/from_bits/digits()/to_bits are the identity on the digit array (decided under C13)'],
@@ -108,13 +159,32 @@ ASSUME = {
 HOOK_COMMITS = []
 
 # per-property claim texts for MANIFEST.json
+def _claim(what, outside, oracle):
+    return dict(
+        text=f'Bounded model checking of the compiled bnum code (Kani -> CBMC -> SAT): {what} The SAT solver decides each harness over ALL values of its '
+             f'symbolic inputs, so inside a listed instantiation the claim is exhaustive; across configurations it is a finite matrix (digit types u8/u16/u32/u64, '
+             f'power-of-two and non-power-of-two widths, signed and unsigned), which is why this is model checking and not proof.',
+        note=f'Trusted: Kani MIR->GOTO translation and its core/alloc models, CBMC bit-level semantics of primitive operators, CaDiCaL; oracle: {oracle}. '
+             f'Outside the claim: {outside}',
+        technique='Kani/CBMC bounded model checking of the real code against an independent oracle (SAT-decided, counterexamples replayed natively)')
+
+
 CLAIMS = {
-    'C01': dict(
-        text='Bounded model checking of the compiled add/sub/neg/abs families: for each listed instantiation (8..320 bits, all four digit types, '
-             'signed and unsigned) the SAT solver decides over ALL operand values and carry bits that every overflowing/checked/wrapping/'
-             'saturating/strict form equals the projection of the exact (B+2)-byte result. Exhaustive in the operands, finite in the configuration matrix.',
-        note='Kani/CBMC/CaDiCaL trusted; oracle = byte-wise exact arithmetic in the harness; widths above 320 bits not covered.',
-        technique='Kani/CBMC bounded model checking of the real code against an exact-integer oracle (SAT)'),
+    'C01': _claim('every overflowing/checked/wrapping/saturating/strict form of add, sub, neg, abs (+ add_signed/add_unsigned/sub_unsigned, carrying_add, '
+                  'borrowing_sub, abs_diff, unsigned_abs, midpoint) equals the projection of the exact result, for 8..320-bit instantiations.',
+                  'widths above 320 bits.', 'exact two\'s-complement arithmetic two bytes wider than the type, written byte-wise in the harness'),
+    'C05': _claim('shl/shr in all overflow modes (amount over all of u32) and rotate_left/right satisfy the bit-indexed specification for a symbolic bit position, '
+                  'for 8..320-bit instantiations including 24/40/48/96/136/192/320-bit widths.',
+                  'widths above 320 bits; the value of wrapping/overflowing shifts for amounts >= BITS on non-power-of-two widths (left open by the property).',
+                  'bit-indexed specification out[i] = f(in, amount, i) with i symbolic'),
+    'C06': _claim('and/or/xor/not, the seven count functions, bit/set_bit, power_of_two, is_power_of_two, checked/wrapping_next_power_of_two, swap_bytes and '
+                  'reverse_bits satisfy their bit-indexed / defining-property specifications for 8..320-bit instantiations.',
+                  'widths above 320 bits; bit()/set_bit()/power_of_two() with index >= BITS.',
+                  'bit-indexed specification; counts by defining property with a symbolic witness index; population count as sum of primitive per-digit counts'),
+    'C07': _claim('cmp/eq/ne/lt/le/gt/ge/min/max/clamp in inherent, trait and operator form agree with the sign of the exact difference of the denoted integers; '
+                  'equality is digit-array identity; equal values feed identical streams to a recording Hasher; signum/is_positive/is_negative.',
+                  'widths above 320 bits (hashing: above 320 bits; only the write stream of core::hash::Hash is observed).',
+                  'sign of the exact (N+1)-digit difference'),
 }
 NOT_APPLICABLE = {f'C{n:02d}': 'check not built yet in this revision of /verif (work in progress)' for n in range(1, 21)}
 NOT_APPLICABLE['C12'] = ('formatting traits: Kani 0.68 mis-encodes the `if s.is_empty() {"0"} else {&s}` &str expression used by bnum fmt (spurious '
